@@ -2,4 +2,4 @@ From Coq Require Import Extraction ExtrOcamlBasic NArith.
 From LTV.C13 Require Import Model.
 Set Extraction Optimize.
 Extraction Language OCaml.
-Extraction "extracted/c13_model.ml" init step run N.succ.  (* N.succ: ocaml/conv.ml refers to type n *)
+Extraction "extracted/c13_model.ml" init step run wire_event N.succ.  (* N.succ: ocaml/conv.ml refers to type n *)
